@@ -228,6 +228,9 @@ class YosysBehavioralRTLIRToVVisitorL1( BehavioralRTLIRToVVisitorL1 ):
     Type = node.value.Type
 
     s.signal_expr_prologue( node )
+    if not hasattr( node.value, 'sexpr' ):
+      # the base is a computed value ( a concatenation ): its text is the prefix
+      node.sexpr['s_attr'] = value.replace( '{', '{{' ).replace( '}', '}}' )
 
     # Unpacked index
     if isinstance( Type, rt.Array ):
